@@ -131,6 +131,16 @@ def _kill_tree(log):
     return k
 
 
+def _reader_released(log):
+    """C20 (finding F8): once every worker has been killed nobody reads the call queue any more; unless the
+    parent closes its own copy of the reading end, a feeder thread blocked in send_bytes (task larger than the
+    pipe buffer) never ends and keeps the thread and both pipe ends for ever.  The close must come after the
+    pending futures were failed (the feeder's error callback must not resolve them with a made-up error)."""
+    idx = [i for i, e in enumerate(log) if e[:1] == ("cq-reader-close",)]
+    last_fail = max([i for i, e in enumerate(log) if e[:1] == ("failed",)], default=-1)
+    return bool(idx) and idx[0] > last_fail
+
+
 def check_terminate_broken(n_pending: int, n_procs: int, lookup_fails: bool) -> bool:
     """
     pre: 0 <= n_pending <= 3 and 0 <= n_procs <= 3
@@ -165,6 +175,8 @@ def check_terminate_broken(n_pending: int, n_procs: int, lookup_fails: bool) -> 
     for p in plist:  # every remaining worker killed exactly once and reaped
         if log.count("kill-tree", p.pid) != 1 or p.alive:
             return False
+    if not _reader_released(log):
+        return False
     # internals joined: queues and wakeup closed (wakeup under the shutdown lock), no lock left held
     return (log.count("cq-close") == 1 and log.count("cq-join-thread") == 1 and log.count("rq-close") == 1
             and log.count("wakeup-close") == 1 and not mgmt.held and not fake.shutdown_lock.held
@@ -199,7 +211,7 @@ def check_flag_shutting_down(n_pending: int, n_procs: int, kill: bool, done_befo
     for f in futs:
         if type(f.exception(timeout=0)) is not ShutdownExecutorError:
             return False
-    return (not fake.pending_work_items) and (not procs) and \
+    return (not fake.pending_work_items) and (not procs) and _reader_released(log) and \
         all(log.count("kill-tree", p.pid) == 1 for p in plist)
 
 
